@@ -21,7 +21,7 @@ def extra(prop, tier):
                 continue
             if (b["rc"], b["sha"], b["exc"]) != (o["rc"], o["sha"], o["exc"]):
                 hits.append({"stream": "determinism", "case": c, "obs": {"seed0": b, "seed%d" % sd: o},
-                             "key": "hashseed-differs", "what": f"output differs between PYTHONHASHSEED=0 and {sd}: rc {b['rc']} vs {o['rc']}, {b['len']} vs {o['len']} chars"})
+                             "key": "hashseed-differs" + sm.key_suffix(c, b), "what": f"output differs between PYTHONHASHSEED=0 and {sd}: rc {b['rc']} vs {o['rc']}, {b['len']} vs {o['len']} chars"})
     # hidden state across invocations: the same cases in REVERSED order (different predecessors in each worker
     # process) must give the same per-case output as in the base run
     rev = list(reversed(cases))
@@ -32,7 +32,7 @@ def extra(prop, tier):
             continue
         if (b["rc"], b["sha"], b["exc"]) != (o["rc"], o["sha"], o["exc"]):
             hits.append({"stream": "determinism", "case": c, "obs": {"in_order": b, "reversed_order": o},
-                         "key": "order-of-invocations-differs", "what": "the output for this pair depends on which comparisons ran earlier in the same process"})
+                         "key": "order-of-invocations-differs" + sm.key_suffix(c, b), "what": "the output for this pair depends on which comparisons ran earlier in the same process"})
     return {"hits": hits, "evaluations": evaluations, "distinct": [],
             "info": {"hash_seeds": [0] + seeds, "cases_per_seed": len(cases)},
             "samples": [{"stream": "determinism", "case": cases[0], "obs": base[0]}] if cases else []}
@@ -40,6 +40,11 @@ def extra(prop, tier):
 
 register("C07", lean_modules=["GtModel.Props.C07"], gen=gentables.gen_c07_tables,
          theorems=["GtModel.C07.set_sites_reviewed", "GtModel.C07.nondet_sites_reviewed"], streams=["determinism"], extra=extra,
-         partial="only the absence of unreviewed hash-ordered iteration is a (table) theorem; allocation-order effects, repeated invocation and non-mutation of inputs are checked on the real code by the determinism stream across hash seeds",
+         partial="the two (table) theorems are a TRIPWIRE for the syntactic forms listed in front of _set_sites / _nondet_sites in harness/gentables.py "
+                 "(set-typed names, parameters, attributes, helper results, module constants iterated / popped / sorted with a key; imports of and calls through "
+                 "time, datetime, random, secrets, uuid, threading, tempfile, os.<x> ... under any alias; id(); hash()/id/repr in sort keys and ordering comparisons; "
+                 "global statements; module-level containers mutated in functions; lru_cache) - not every hash-order / clock / hidden-state dependence; "
+                 "everything else (other forms, allocation-order effects, repeated invocation, non-mutation of inputs) is checked on the real code by the determinism "
+                 "stream across hash seeds, on every input type, output format and mode, for the documents of the stream only",
          assumptions=["at most one combining mark (strike / under_plus) is active at a time while an edit is printed"],
-         trusted=["ast walk of /repo/graphtage in harness/gentables.py (finds set-typed locals/attributes iterated by for / comprehension / join / list / yield from)"])
+         trusted=["ast walk of /repo/graphtage in harness/gentables.py (finds the LISTED syntactic forms only: see the comments in front of _set_sites and _nondet_sites)"])
